@@ -366,6 +366,28 @@ Proof. apply fq_run_refines. apply RF_new. Qed.
 Theorem fq_run_eq_pq_run ops : fq_run fq_new 0 ops = pq_run pq_new 0 ops.
 Proof. rewrite fq_run_eq_aq_run. symmetry. apply pq_run_eq_aq_run. Qed.
 
+Theorem fq_run_eq_both ops :
+  fq_run fq_new 0 ops = aq_run [] 0 ops /\ fq_run fq_new 0 ops = pq_run pq_new 0 ops.
+Proof. split; [apply fq_run_eq_aq_run|apply fq_run_eq_pq_run]. Qed.
+
+Theorem RF_all f L : RF f L ->
+  (forall v prio, exists f', fq_push f v prio = Ok f' /\ RF f' (aq_push L v prio)) /\
+  (forall sq, fq_find f sq = aq_find L sq) /\
+  (forall k, match aq_popat L k with
+             | Ok (w, t) => exists f', fq_popat f k = Ok (w, f') /\ RF f' t
+             | Err e => fq_popat f k = Err e
+             | Panic => fq_popat f k = Panic
+             | Diverge => fq_popat f k = Diverge
+             end) /\
+  (exists f', fq_clear f = Ok f' /\ RF f' []) /\
+  fn f = u16 (Z.of_nat (length L)).
+Proof.
+  intros H. split; [intros v prio; apply RF_push; exact H|].
+  split; [intros sq; apply RF_find; exact H|].
+  split; [intros k; apply RF_popat; exact H|].
+  split; [eapply RF_clear; exact H|apply RF_len; exact H].
+Qed.
+
 (* ================= the count-carrying oracle is the oracle ================= *)
 Lemma sp_step_fast_eq t o r :
   sp_step_fast t (blen t) o r =
